@@ -8,12 +8,16 @@ THEOREMS = ["Slock.C07A.deadline_seconds", "Slock.C07A.deadline_seconds_saturate
             "Slock.C07J.recover_lock_new", "Slock.C07J.recover_relock", "Slock.C07J.recover_update", "Slock.C07J.recover_unlock_full",
             "Slock.C07J.recover_unlock_partial", "Slock.C07J.recover_unlock_last", "Slock.C07J.recover_frame",
             "Slock.C07J.recover_lock_unlock_identity", "Slock.C07J.recover_compositional", "Slock.C07J.partial_unlock_example",
-            "Slock.C07J.partial_unlock_as_full_example", "Slock.C07J.levels_with_update_flag_example"]
+            "Slock.C07J.partial_unlock_as_full_example", "Slock.C07J.levels_with_update_flag_example",
+            "Slock.C07J.reload_uses_generated_conversion", "Slock.C07J.reload_single_agrees", "Slock.C07J.reload_one_record_per_key",
+            "Slock.C07J.replay_level_record_expired_violated", "Slock.C07J.replay_update_record_expired_violated",
+            "Slock.C07J.replay_unlock_record_expired_violated", "Slock.C07J.replay_update_within_tolerance_violated",
+            "Slock.C07J.replay_value_of_ended_hold_lost_violated"]
 FINISH = {"level": "proof", "assumptions": [
     "the conversions (Model/Aof.lean pushCommandTime, pushAge, writeRemaining, skippedAt, loadRemaining) are hand-written mirrors of AofChannel.Push, Aof.GetAofLockExpriedTime, the filter in LoadAofFile and Aof.GetLockCommandExpriedTime; tied by the aofdeadline differential (real Push -> real writer -> real LoadAofFile -> real GetLockCommandExpriedTime)",
     "engineDeadline mirrors LockManager.AddLock (lock.go 566-577); the harness computes the original deadline with the same formula (the engine's own expiry timing is C06's business)",
     "times are below 2^61 seconds; the reload uses one clock value for the file filter and for the conversion",
-    "journal/replay part: the restart mode is MONITOR-ONLY against the real code (seeded histories over 2-3 dbs through a real SLock + real Aof with real AofChannel goroutines on a virtual clock laid out so that the restart second equals the real clock; fresh SLock on a copy of the directory); its oracle is the reference replay recover (Slock.Aof.recover), whose Lean definition is diffed against the harness's Go copy on every journal (aofjournal lines) and about which the C07J algebra is proved; the refinement recover(journal) = persisted holds over the engine model is NOT proved (statement text in Properties/C07Journal.lean)",
+    "journal/replay part: the REAL restart snapshot is diffed against Slock.Aof.reload (the model of LoadAofFile's per-record filter + HandleLoad + the FROM_AOF branches of LockDB.Lock/UnLock, with the regenerated doLock / CheckLockedEqual / GetLockCommandExpriedTime kernels); every load is pinned to one real second (repeated when the wall second changed); the journal side and the property are monitors (seeded histories over 2-3 dbs through a real SLock + real Aof with real AofChannel goroutines on a virtual clock laid out so that the restart second equals the real clock; fresh SLock on a copy of the directory); its oracle is the reference replay recover (Slock.Aof.recover), whose Lean definition is diffed against the harness's Go copy on every journal (aofjournal lines) and about which the C07J algebra is proved; the refinement recover(journal) = persisted holds over the engine model is NOT proved (statement text in Properties/C07Journal.lean)",
     "not generated: updates that move a hold between the millisecond wheel and the second wheel, the 'unlimited + Expried 0xffff' update, require-ack locks, size-triggered rotation in the middle of a history (loadRewriteAofFiles reads time.Now())"]}
 
 
@@ -38,8 +42,7 @@ def run(ctx):
     n = 3000 if ctx.tier == "quick" else 60000
     seeds = [ctx.seed] if ctx.tier == "quick" else [ctx.seed + i for i in range(3)]
     aof_common.run_mode(ctx, exe, "aofdeadline", n, ["C07:"], classify, "deadline conversions vs real Push / LoadAofFile / GetLockCommandExpriedTime", seeds=seeds)
-    aof_common.run_mode(ctx, exe, "restart", 60 if ctx.tier == "quick" else 800, ["C07:"], None, "Slock.Aof.recover vs the harness's reference replay",
-                        seeds=seeds, diff_modes=["aofjournal"], stats_key="restart")
+    aof_common.run_restart(ctx, exe, 50 if ctx.tier == "quick" else 500, ["C07:"], seeds=seeds)
     ctx.cov["rule"] = ("random (unit flags, Expried incl. 1/59/60/61/1000/60000/65535, grant second, journal second within the hold's life, reload second incl. clock steps back); "
                        "distinct = (unit, Expried bucket, skipped, restored 0, outage bucket). restart: 12-36 operations per history over 2-3 dbs x 1-2 keys x 3 LockIds "
                        "(lock with persist-now / never-persist / default / percent journalling, units s/min/unlimited/ms, Count 0-2, Rcount 0-3, re-lock to depth 2-4, update flag 0x02, "
